@@ -1,6 +1,7 @@
 (* RoundProofs.v -- what rounding an exact value to k decimals (Python's round) does: nearest k-decimal number, exact ties to even,
    idempotent, monotone, odd, exact on k-decimal numbers, well defined on Q. *)
-From Coq Require Import ZArith QArith Qabs Lia Lqa Bool.
+From Coq Require Import ZArith QArith Qabs Lia Lqa Bool List.
+Import ListNotations.
 From Forsys Require Import Model.Round.
 Open Scope Z_scope.
 
@@ -196,4 +197,42 @@ Proof.
     + transitivity (round_dec 3 (round_dec 3 py)); [apply round_dec_compat; ring | apply round_dec_idempotent].
     + transitivity (round_dec 3 (round_dec 3 qy)); [apply round_dec_compat | apply round_dec_idempotent].
       field. intro H. apply E. lra.
+Qed.
+
+(* ---------------------------------------------------------------- what the rounding of a right-hand side does to a linear image of it *)
+(* If a quantity depends linearly on the right-hand side (a row of the pseudo-inverse of the system the back-end receives applied to it),
+   rounding every component of the right-hand side to k decimals moves it by at most (sum of |row|) * half a unit of the k-th decimal. *)
+Fixpoint dotQ (a b : list Q) : Q :=
+  match a, b with
+  | x :: a', y :: b' => (x * y + dotQ a' b')%Q
+  | _, _ => 0%Q
+  end.
+Definition abs_row_sum (a : list Q) : Q := fold_right (fun x s => (Qabs x + s)%Q) 0%Q a.
+
+Lemma abs_row_sum_nonneg : forall a, (0 <= abs_row_sum a)%Q.
+Proof.
+  induction a as [|x a IH]; cbn [abs_row_sum fold_right]; [apply Qle_refl|].
+  pose proof (Qabs_nonneg x). fold (abs_row_sum a). lra.
+Qed.
+
+Theorem rounded_rhs_perturbation : forall k (row b : list Q),
+  (Qabs (dotQ row (map (round_dec k) b) - dotQ row b) <= abs_row_sum row * (1 # (2 * Z.to_pos (pow10 k))))%Q.
+Proof.
+  intros k. set (dl := (1 # (2 * Z.to_pos (pow10 k)))%Q).
+  assert (Hd : (0 <= dl)%Q) by (unfold dl, Qle; cbn; lia).
+  induction row as [|x row IH]; intros b.
+  - cbn. unfold Qle; cbn; lia.
+  - destruct b as [|y b].
+    + cbn [map dotQ]. pose proof (abs_row_sum_nonneg (x :: row)) as Hn.
+      setoid_replace (0 - 0)%Q with 0%Q by ring. cbn [Qabs Z.abs Qnum]. nra.
+    + cbn [map dotQ abs_row_sum fold_right]. fold (abs_row_sum row).
+      setoid_replace (x * round_dec k y + dotQ row (map (round_dec k) b) - (x * y + dotQ row b))%Q
+        with (x * (round_dec k y - y) + (dotQ row (map (round_dec k) b) - dotQ row b))%Q by ring.
+      eapply Qle_trans; [apply Qabs_triangle|].
+      rewrite Qabs_Qmult.
+      assert (H1 : (Qabs (round_dec k y - y) <= dl)%Q).
+      { setoid_replace (round_dec k y - y)%Q with (- (y - round_dec k y))%Q by ring. rewrite Qabs_opp. apply round_dec_within_half. }
+      specialize (IH b). pose proof (Qabs_nonneg x) as Hx.
+      assert (H2 : (Qabs x * Qabs (round_dec k y - y) <= Qabs x * dl)%Q) by (rewrite !(Qmult_comm (Qabs x)); apply Qmult_le_compat_r; assumption).
+      lra.
 Qed.
